@@ -78,3 +78,18 @@ func listCases(prop string, n int) {
 		fmt.Printf("case %d layout=%s pkgs=%v steps=%d\n", i, c.Layout, c.Pkgs, len(c.Steps))
 	}
 }
+
+func init() {
+	_ = listSteps
+}
+
+func listSteps(prop string, n int) {
+	for i := 0; i < n; i++ {
+		c := engc.GenCase(common.Rng(common.Seed(), i), prop, false)
+		for _, st := range c.Steps {
+			if st.Op == "cmd" {
+				fmt.Printf("case %d: %s\n", i, st)
+			}
+		}
+	}
+}
